@@ -659,7 +659,10 @@ class RZILTransformer(Transformer):
             )
         else:
             raise NotImplementedError(f"Assign type {assign.assign_type} not handled.")
-        self.add_op(assign.src)
+        # C11 6.5.16.2: the result of the operation is converted to the type of the left operand.
+        assign.set_src(
+            self.init_a_cast(assign.dest.value_type, self.add_op(assign.src))
+        )
 
     def assignment_expr(self, items):
         self.ext.set_token_meta_data("assignment_expr")
